@@ -388,6 +388,46 @@ def rule_draws(ctx, tu):
     ctx.floor(R, 4)
 
 
+def rule_all_channels(ctx, tu):
+    """C07.ALL-CHANNELS -- the propensity of every channel of every cell is (re)computed on every step: the stores into the
+    propensity tables and into a0 depend on nothing but the loop ranges and the existence of the neighbour.  A shortcut that
+    skips cells by their content (an `empty` cell still hosts zero-order reactions and receives molecules) leaves stale or
+    missing propensities, so a0 is not the total rate."""
+    R = "C07.ALL-CHANNELS"
+    import re
+    n = 0
+    for cn in GILL + TAU:
+        for fname in ("ComputePropensities", "Compute_nevt"):
+            c = tu.classes[cn]
+            if fname not in c.methods:
+                continue
+            f = c.methods[fname]
+            recs = []
+
+            def on_atom(node, facts, recs=recs):
+                for x in walk(node):
+                    for s_ in cxa.stores_of_node(x):
+                        if s_.base and s_.base[0] == "field" and s_.base[1] != "mesh_x":
+                            recs.append((s_, frozenset(facts)))
+            cxa.canon_facts(f.body, on_atom=on_atom)
+            for s_, facts in recs:
+                extra = []
+                for t, pol in facts:
+                    if not isinstance(t, str):
+                        continue
+                    if re.match(r"^[A-Za-z_][A-Za-z_0-9']* < ", t) or re.match(r"^0 <= ", t):
+                        continue                      # loop ranges
+                    if t.startswith(("mesh_neighbors[", "mesh_neighbor_index[")) and t.endswith("== -1"):
+                        continue                      # the neighbour exists
+                    extra.append(("" if pol else "!") + "(" + t + ")")
+                n += 1
+                ctx.check(not extra, R, s_.node, f.qual, text(s_.node)[:70], "computed for every cell and channel",
+                          "the entry is written only under %s: cells / channels excluded by that test keep a stale or missing "
+                          "propensity (zero-order sources, molecules that have just arrived)" % ", ".join(sorted(extra))[:140],
+                          nontrivial=False)
+    ctx.floor(R, 20)
+
+
 def run(ctx):
     tu = ctx.cx
     rule_one_event(ctx, tu)
@@ -397,6 +437,7 @@ def run(ctx):
     rule_partition(ctx, tu)
     rule_tau(ctx, tu)
     rule_draws(ctx, tu)
+    rule_all_channels(ctx, tu)
     # a diffusion event is one molecule leaving the source and entering the direction's neighbour, each half suppressed only
     # by the chemostat flag of its own entry (otherwise a selected event is a no-op or half an event)
     from . import c02
